@@ -5,7 +5,7 @@
 From Coq Require Import NArith List Bool Lia.
 From RQ Require Import Base.Outcome Base.Ints Base.Vec Spec.Linear Spec.Bits Model.FieldFast Model.CMatrix Model.Layout
   Model.Encoder Model.CertRun Model.Kernels Model.Tuple
-  Model.Slab Model.DecoderPi Proofs.LinearInst Proofs.BuildMode Props.C06 Props.C11 Props.C15.
+  Model.Slab Model.DecoderPi Model.Decoder Model.DecoderSpec Proofs.LinearInst Proofs.BuildMode Proofs.BuildModeDec Props.C06 Props.C11 Props.C15.
 Import ListNotations.
 Open Scope N_scope.
 
@@ -62,6 +62,19 @@ Theorem C07_encoder_build_mode_irrelevant : forall m1 m2 syms T C, wf_mat T syms
   gen_intermediate_symbols_pi m1 syms T = Ok C /\ gen_intermediate_symbols_pi m2 syms T = Ok C.
 Proof. exact encoder_build_mode_irrelevant. Qed.
 
+(* build mode, decoder: for every state the packet loop can reach, the constraint matrix built for the received set
+   and WHETHER the block decoder answers are the same in both build variants (C02_decodes_iff holds for every mode
+   and the matrix is mode-independent); what it answers is the block in both (C01u / C01s, for every mode) *)
+Theorem C07_decoder_matrix_mode_irrelevant : forall m d,
+  sbd_inv d -> sized d -> sbd_K d <= 56403 -> A_of m d = A_of Release d.
+Proof. exact A_of_mode. Qed.
+
+Theorem C07_decodability_build_mode_irrelevant : forall m1 m2 d,
+  sbd_inv d -> sized d -> cfg_sub_ok (sbd_cfg d) -> sbd_K d <= 56403 ->
+  ~ all_source d -> sbd_K d <= Layout.lenN (sbd_esis d) ->
+  ((exists r d', sbd_try m1 d = Ok (Some r, d')) <-> (exists r d', sbd_try m2 d = Ok (Some r, d'))).
+Proof. exact decodability_mode. Qed.
+
 (* CPU: every dispatch path computes the same function as the portable kernels *)
 Theorem C07_kernel_dispatch_irrelevant : forall (m : mode) (c : cpu),
   (forall dest src, bytes dest -> bytes src ->
@@ -79,3 +92,5 @@ Print Assumptions C07_matrix_mode_irrelevant.
 Print Assumptions C07_kernel_dispatch_irrelevant.
 Print Assumptions C07_encoder_reference_mode_irrelevant.
 Print Assumptions C07_encoder_build_mode_irrelevant.
+Print Assumptions C07_decoder_matrix_mode_irrelevant.
+Print Assumptions C07_decodability_build_mode_irrelevant.
